@@ -275,7 +275,12 @@ class Check:
             hang = "panic: verif watchdog" in p.stdout
 
             def single(i):
-                return i, self._go_once(pkg, test, cases, ov, timeout, env, "%s.one%d" % (outname, i), idx={i})[0]
+                # goroutine scheduling is not replayed: a crash that depends on it gets three tries on its own
+                for attempt in range(3):
+                    q = self._go_once(pkg, test, cases, ov, timeout, env, "%s.one%d" % (outname, i), idx={i})[0]
+                    if q.returncode != 0 and "panic:" in q.stdout and crash_pkg in q.stdout:
+                        break
+                return i, q
             with cf.ThreadPoolExecutor(max_workers=8) as ex:
                 for i, q in ex.map(single, sorted(suspects - set(crashed))):
                     if q.returncode != 0 and "panic:" in q.stdout and crash_pkg in q.stdout:
